@@ -212,10 +212,12 @@ Spec == Init /\ [][Next]_vars
 Safe == \A e \in stored \cup delivered : ValidFor(e[1], e[2])
 
 \* As read (PyramidUpperBound = FALSE) Safe does not hold; what holds is: the only invalid things are
-\* over-long pyramid entries whose first CS+8 bytes are the honest payload of the key, and they are only stored.
+\* over-long pyramid entries whose first CS+8 bytes are the honest payload of the key; they are stored and,
+\* from then on, served as they are to peers asking the node for that address (RelayReply).
+OverlongPrefixOK(e) == e[2].cls \in {"overlong", "overlongBig"} /\ e[2].of = e[1] /\ e[1] \in Full
 SafeUpToOverlongPyramidEntries ==
-  /\ \A e \in delivered : ValidFor(e[1], e[2])
-  /\ \A e \in stored : ValidFor(e[1], e[2]) \/ (e[2].cls \in {"overlong", "overlongBig"} /\ e[2].of = e[1] /\ e[1] \in Full)
+  /\ \A e \in stored : ValidFor(e[1], e[2]) \/ OverlongPrefixOK(e)
+  /\ \A e \in delivered : ValidFor(e[1], e[2]) \/ (OverlongPrefixOK(e) /\ e \in stored)
 \* ... and the gap is real in that reading (used as a reachability witness, expected to be violated when FALSE)
 NoInvalidStored == \A e \in stored : ValidFor(e[1], e[2])
 
